@@ -291,8 +291,15 @@ class TextRenderer(BaseRenderer):
                 self._render_strs["mid_frame"][wire] += mid_connect
                 self._render_strs["bot_frame"][wire] += mid_frame
             else:
+                mid_part = mid_frame
+                if gate.controls and wire in gate.controls:
+                    # a control between the targets: its node sits in the box
+                    mid_index = len(mid_frame) // 2
+                    mid_part = (
+                        mid_frame[:mid_index] + "█" + mid_frame[mid_index + 1 :]
+                    )
                 self._render_strs["top_frame"][wire] += mid_frame
-                self._render_strs["mid_frame"][wire] += mid_frame
+                self._render_strs["mid_frame"][wire] += mid_part
                 self._render_strs["bot_frame"][wire] += mid_frame
 
     def _update_qbridge(
